@@ -222,7 +222,7 @@ CHECKS = {
         engine="tlc-pool",
         technique="TLC model checking of Pool.tla (all interleavings of Take/Finish/Yield, both ways the per-process "
                   "counter travels) + TLC-enumerated completion orders steering the real pathos pool + byte comparison "
-                  "of CLI runs with -c 1..16, judged by TLC (Trace_Pool)",
+                  "of CLI runs with -c 1..16, judged by TLC (Trace_Pool) + TLC liveness checking (every map delivers every result under weak fairness, MC_Pool_live.cfg)",
         text="TLC explores every schedule of the ordered parallel map for 4 tasks x 3 workers (5 x 4 thorough) and "
              "shows that what reaches the files is schedule independent while the source tags are not (named "
              "deviation); TLC enumerates the feasible completion orders for 6 tasks / 3 workers and a harness "
